@@ -2,19 +2,39 @@ package ast
 
 import "github.com/xjslang/xjs/token"
 
+// mappingRequest is a source position (and optional name) waiting for the text it belongs to.
+type mappingRequest struct {
+	line, column int
+	name         string
+	named        bool
+}
+
+// AddMapping links the text written next to the source position pos. The segment is
+// recorded when that text is written, behind any layout, separator or semicolon the
+// writer puts in front of it, so that it points at the text itself.
 func (cw *CodeWriter) AddMapping(pos token.Position) {
-	// pending layout belongs in front of the token the mapping is for
-	cw.flushPending()
 	if cw.Mapper == nil {
 		return
 	}
-	cw.Mapper.AddMapping(pos.Line, pos.Column)
+	cw.mapping = &mappingRequest{line: pos.Line, column: pos.Column}
 }
 
 func (cw *CodeWriter) AddNamedMapping(sourceLine, sourceColumn int, name string) {
-	cw.flushPending()
 	if cw.Mapper == nil {
 		return
 	}
-	cw.Mapper.AddNamedMapping(sourceLine, sourceColumn, name)
+	cw.mapping = &mappingRequest{line: sourceLine, column: sourceColumn, name: name, named: true}
+}
+
+// recordMapping records the requested mapping at the current output position.
+func (cw *CodeWriter) recordMapping() {
+	if cw.mapping == nil || cw.Mapper == nil {
+		return
+	}
+	if cw.mapping.named {
+		cw.Mapper.AddNamedMapping(cw.mapping.line, cw.mapping.column, cw.mapping.name)
+	} else {
+		cw.Mapper.AddMapping(cw.mapping.line, cw.mapping.column)
+	}
+	cw.mapping = nil
 }
